@@ -107,6 +107,10 @@ def _e2e_case(args):
         elif ic == "d0v0":
             sol = ts.tsolve(Fm, d0=alg.sym_array(list(d0s)), v0=alg.sym_array(list(v0s)))
             d0v, v0v = list(d0s), list(v0s)
+        elif ic == "static+v0":
+            # static initial displacement AND a given initial velocity in the same call
+            sol = ts.tsolve(Fm, v0=alg.sym_array(list(v0s)), static_ic=True)
+            d0v, v0v = [0, Fm[1, 0].e / kv[1], None], list(v0s)
         else:
             sol = ts.tsolve(Fm, static_ic=True)
             d0v, v0v = [0, Fm[1, 0].e / kv[1], None], [0, 0, 0]
@@ -336,7 +340,7 @@ def run(tier, seed):
     src = report.read_source(SU)
     vs2 = pipeline.verify_jobs(run, [dict(contract=SL.inner_loop(o), source=src, lang="python", tag="_solve_real_unc_inner_loop[order=%d]" % o)
                                      for o in (1, 0)], cross=(tier == "thorough"))
-    cases = [(o, mf, rg, ic) for o in (1, 0) for mf in ("vector", "none", "matrix") for rg in (True, False) for ic in ("zero", "d0v0", "static")]
+    cases = [(o, mf, rg, ic) for o in (1, 0) for mf in ("vector", "none", "matrix") for rg in (True, False) for ic in ("zero", "d0v0", "static", "static+v0")]
     outs = report.pool().map(e2e_case, cases, chunksize=1)
     nev, fails, und = 0, [], 0
     for args, res, secs in outs:
